@@ -241,12 +241,12 @@ PROPS['C05'] = dict(
                'sampled event traces validated by the extracted, proved-sound acceptor; plus concurrent read histories on the uninstrumented code (answers = sequential) and a '
                'race-detector run.',
     level_note='Partial by nature: the Go memory model and sync.Mutex granting the lock to a given waiter eventually (needed only when new calls keep arriving for ever) are not modelled; "no data race" is the model-level lock discipline plus the race detector run. '
-               'Trace validation covers programs of At calls (one wait per call); richer operations are covered by answer comparison only.',
+               'Trace validation: every memoizer.wait call of the explored programs (At, forward traversal with early exit, backward traversal of a bounded view) is a call / return event pair with the observed length; formatting and searching under concurrency are covered by answer comparison and the race detector only.',
     rule='cases: (a) concurrent histories: 2-4 goroutines with random read histories (C04 generator) on one shared Number, every goroutine must obtain its sequential answers; '
-         '(b) schedule exploration: all schedules (DFS, up to a budget) of 2-reader x 1-call programs over sources of 0/1/99/100/101/150 digits and an endless one, DFS + random walks '
+         '(b) schedule exploration: all schedules (DFS, up to a budget) of 2-reader programs (At, forward traversal stopped early, backward traversal of a bounded view) over sources of 0/1/99/100/101/150 digits and an endless one, DFS + random walks '
          'for 3-reader and multi-call programs; a sample of event traces per configuration validated against Conc.step. Non-trivial: every concurrent case.',
     modelled='sync.Mutex, sync.Cond (no spurious wake-ups), go statement; scheduler fairness and the memory model are not modelled',
-    assumptions=['the instrumentation rewrites sync.Mutex, *sync.Cond, sync.NewCond, go result.run() and m.iter() in a temporary copy of numberspec.go and refuses any other synchronisation construct'],
+    assumptions=['the instrumentation rewrites sync.Mutex, *sync.Cond, sync.NewCond, go result.run(), m.iter() and every m.wait( call in a temporary copy of numberspec.go and refuses any other synchronisation construct or unwrapped wait call'],
     stages=[c05stage.stage, _race_stage],
 )
 PROPS['C06']['stages'] = [c05stage.stage]
